@@ -507,6 +507,8 @@ def generate(unit, probe=False, repo=None):
                 # the header of that impl (which must exist: the spec minus its last part)
                 impl_of = extract.find(os.path.join(repo, b.path), b.spec.rsplit(None, 1)[0])
             drops.append(f"extract-or: {b.path} {b.spec} is absent; emitted instead: {b.alt[0]} {b.alt[1]}")
+            # loop invariants / closure contracts / hints are written for the primary text: not applicable to the stand-in
+            b.loops, b.loopvars, b.closures, b.hints = {}, {}, {}, []
         if b.finding and not b.rename:
             b.rename = f"{item.name}__finding_{b.finding}"
         if b.contract:
@@ -587,7 +589,9 @@ def generate(unit, probe=False, repo=None):
             sigtext, _ = extract.emit_item(item, sig_opts, [])
             body_opts["ret"] = b.ret
             text, lost = extract.emit_item(item, body_opts, drops)
+            pre = pre[:len(pre) - len(b.attrs)] if b.attrs and pre.endswith(b.attrs) else pre
             pre += f"trait {tname}{tgen_decl.strip()} {{\n{pre_decl}{sigtext}\n}}\nimpl{gen} {tname}{tgen_use.strip()} for {ty} {where} {{\n{pre_def}"
+            pre += b.attrs
             post = "\n}\n"
             drops.append(f"method of external type emitted in extension trait {tname}")
         else:
